@@ -93,7 +93,7 @@ def r17_1_2(ctx):
 
 
 def r17_3(ctx):
-    its = [it for it in ctx.ast.crates["xml5ever"] if it["k"] == "Fn" and it["name"] == "write_to_buf_escaped" and it.get("body") is not None]
+    its = [it for it in ctx.ast.walkable("xml5ever") if it["k"] == "Fn" and it["name"] == "write_to_buf_escaped" and it.get("body") is not None]
     if len(its) != 1:
         raise AnchorMissing("write_to_buf_escaped")
     arms = []
